@@ -441,7 +441,8 @@ def o_interp_result(op, np_, bary, logs, m_out, log_out, out, tag=None, xyz=None
             out.append('%s: log-spectrum [%.12e, %.12e] outside the donors\' range [%.12e, %.12e]' % (op, eo[0], eo[-1], lo, hi))
             return
         em = sm_eigs(m_out)
-        if em[0] < math.exp(lo) * (1 - 1e-8) or em[-1] > math.exp(hi) * (1 + 1e-8):
+        # the stored doubles carry an absolute error of a few eps * |M| (visible in the smallest eigenvalue)
+        if em[0] < math.exp(lo) * (1 - 1e-8) - 256 * EPS * em[-1] or em[-1] > math.exp(hi) * (1 + 1e-8):
             out.append('%s: eigenvalues [%.12e, %.12e] outside the donors\' range [%.12e, %.12e]' %
                        (op, em[0], em[-1], math.exp(lo), math.exp(hi)))
             return
@@ -496,7 +497,7 @@ def oracle(ops, impl):
                     if 0.0 <= f[12] <= 1.0:
                         o_interp_result(op, 4, [1.0 - f[12], f[12], 0.0, 0.0], [f[0:6], f[6:12], [0.0] * 6, [0.0] * 6],
                                         res[:6], res[6:], out)
-            elif op in ('interp_move', 'interp_between'):
+            elif op in ('interp_move', 'interp_between', 'interp_field'):
                 o_interp_dump(op, w, r, out)
         except (ValueError, IndexError, AssertionError, KeyError):
             continue
@@ -564,7 +565,7 @@ def o_gac(mesh, gradation, target, line, out):
 
 def o_interp_dump(op, w, line, out):
     rw = line.split()
-    if rw[0] != 'interpdump':
+    if rw[0] not in ('interpdump', 'interpfdump'):
         tag = w[1]
         if tag.startswith('in') and not line.startswith('interpskip background'):
             out.append('%s: vertex inside the background mesh not interpolated: %s' % (op, line[:80]))
@@ -577,7 +578,7 @@ def o_interp_dump(op, w, line, out):
     o_interp_result(op, np_, bary, logs, m_out, log_out, out, tag=tag[2:] if tag[2:3] == 'l' else None, xyz=xyz)
     # the donor logs printed by the harness are those stored on the background grid by ref_node_metric_set:
     # they must be the logs of the field handed in on the op line
-    k0 = 6 if op == 'interp_move' else 5
+    k0 = 5 if op == 'interp_between' else 6
     mesh = parse_mesh(w[k0:])
     for j in range(np_):
         d = int(rw[2 + j])
@@ -978,7 +979,7 @@ def gen_interp_grid(rng, tier):
             p[2] = 0.0
         if rng.random() < 0.5:
             node = rng.randrange(len(xyz))
-            ops.append(' '.join(['interp_move', where + kind, str(node)] + [hx(x) for x in p] + mesh.words()))
+            ops.append(' '.join([rng.choice(['interp_move', 'interp_move', 'interp_field']), where + kind, str(node)] + [hx(x) for x in p] + mesh.words()))
         else:
             a, b = ns[0], ns[1]
             tt = rng.choice([0.5, rng.uniform(0.05, 0.95), rng.uniform(0.05, 0.95)])
@@ -989,7 +990,7 @@ def gen_interp_grid(rng, tier):
 
 
 def nontrivial(op, out):
-    return out.startswith('ok ') or out.startswith('gacdump') or out.startswith('interpdump') or \
+    return out.startswith('ok ') or out.startswith('gacdump') or out.startswith('interpdump') or out.startswith('interpfdump') or \
         out in ('div_zero', 'failure', 'invalid')
 
 
